@@ -314,6 +314,8 @@ def run_hourly(case, res):
         # the height is changed after construction (as the search and the sizing do); the result must be that of a GHE built at the
         # new height - differential oracle, independent of any time scale the object may have kept
         h1 = case["retarget"]
+        if case.get("hourly_before"):
+            ghe.simulate(method=TimestepType.HOURLY)  # an hourly run at the construction height first (then the sizing moves the height)
         ghe.bhe.b.H = h1
         mx, mn = ghe.simulate(method=TimestepType.HOURLY)
         fresh = ghe_factory.make_ghe(coords, pipe=cfg.get("pipe", "single"), H=h1, flow_per_bh=cfg.get("flow", 0.3), months=cfg.get("months", 12), loads=loads,
@@ -419,6 +421,8 @@ def main(run: core.Run, only=None):
         hourly.append({"family": "hourly", "cfg": {"N": (1, 4, 25)[k % 3], "pipe": ("single", "coaxial")[k % 2], "months": 12 if k % 2 == 0 else 24}, "blocks": [list(x) for x in b]})
     hourly.append({"family": "hourly", "cfg": {"N": 4, "pipe": "single", "months": 12, "H": 97.5}, "blocks": [[10, 5, 4000.0], [6000, 48, -3000.0]], "retarget": 60.0})
     hourly.append({"family": "hourly", "cfg": {"N": 4, "pipe": "coaxial", "months": 12, "H": 60.0}, "blocks": [[0, 24, -5000.0]], "retarget": 135.0})
+    hourly.append({"family": "hourly", "cfg": {"N": 4, "pipe": "single", "months": 12, "H": 100.0}, "blocks": [[10, 5, 4000.0], [6000, 48, -3000.0]], "retarget": 130.0, "hourly_before": True})
+    hourly.append({"family": "hourly", "cfg": {"N": 1, "pipe": "single", "months": 12, "H": 120.0}, "blocks": [[0, 240, -2000.0]], "retarget": 70.0, "hourly_before": True})
     hourly.append({"family": "hourly", "cfg": {"N": 4, "pipe": "single", "months": 12}, "blocks": [[10, 5, 4000], [6000, 48, -3000], [8000, 2, 1]], "int_loads": True})
     hourly.append({"family": "hourly", "cfg": {"N": 1, "pipe": "coaxial", "months": 24}, "blocks": [[0, 24, -5000], [4000, 3, 2500]], "int_loads": True})
     hourly.append({"family": "hourly", "cfg": {"N": 4, "pipe": "single", "months": 12}, "blocks": [[0, 8760, -2500.0], [100, 50, -6000.0]], "ndarray_calls": 3})
